@@ -261,16 +261,16 @@ pub fn property() -> Property {
                 rule: "date 1900..2100 (30 % solstices / equinoxes / usual DST days) x {NoLocation, TzLocation::new(any of the 596 zones)} without coordinates: `dawn-sunrise`, `sunrise-sunset`, `sunset-dusk`, `dawn-dusk` and two offset forms are open exactly 06-07, 07-19, 19-20, 06-20 (+ offsets); non-trivial = a zone context or a date before 1970",
                 f: defaults,
                 text_f: None,
-                cases_quick: 12_000,
+                cases_quick: 40_000,
                 cases_thorough: 200_000,
-                max_choices: 16,
+                max_choices: 24,
             },
             SubCheck {
                 name: "ordering",
                 rule: "coordinates with |lat| <= 60 (uniform on the sphere band / 23 cities / longitudes at the antimeridian and zone borders) x date 1900..2100, zone inferred by Context::from_coords: the four event times are read from the schedules of `event-24:00`, re-anchored into solar noon +- 12 h and must satisfy dawn < sunrise < solar noon < sunset < dusk as instants, solar noon (computed by the harness from longitude and the equation of time, converted with chrono-tz) at least 30 min inside sunrise..sunset and within 10 min of its middle; `sunrise-sunset` open at solar noon and closed 12 h later; days on which the zone offset changes are skipped; non-trivial = |lat| > 40 or zone offset more than 90 min away from solar time",
                 f: ordering,
                 text_f: None,
-                cases_quick: 12_000,
+                cases_quick: 40_000,
                 cases_thorough: 300_000,
                 max_choices: 24,
             },
@@ -279,7 +279,7 @@ pub fn property() -> Property {
                 rule: "arbitrary f64 pairs (in range, exactly +-90 / +-180 and the next representable values beyond and inside, NaN, +-inf, +-0.0, subnormals, random bit patterns): Coordinates::new accepts iff lat in [-90, 90] and lon in [-180, 180]; accepted pairs keep their values, Context::from_coords and TzLocation::from_coords infer the same zone and three sun-event expressions evaluate (schedule_at, state, capped next_change) without panic, poles and antimeridian included; non-trivial = accepted pair beyond 60 degrees, near the antimeridian or on the equator",
                 f: acceptance,
                 text_f: None,
-                cases_quick: 12_000,
+                cases_quick: 40_000,
                 cases_thorough: 300_000,
                 max_choices: 40,
             },
